@@ -1115,7 +1115,9 @@ func c01LaneD(c *Ctx, root *Rng, n int) []*c01Case {
 					"luahelper": map[string]interface{}{"Warn": w, "base": map[string]interface{}{}}}}})
 			case k == 10:
 				ev := map[string]interface{}{"added": []interface{}{}, "removed": []interface{}{}}
-				f := map[string]interface{}{"uri": "file://$ROOT/src", "name": "src"}
+				// a sub-folder, the root folder itself, its parent, or a folder that does not exist
+				fu := r.Pick([]string{"file://$ROOT/src", "file://$ROOT/src", "file://$ROOT", "file://$ROOT/..", "file://$ROOT/nonexistent"})
+				f := map[string]interface{}{"uri": fu, "name": "src"}
 				if r.Bool() {
 					ev["added"] = []interface{}{f}
 				} else {
